@@ -192,6 +192,14 @@ Definition chain_yield (owned : list nat) : val -> M unit := fun v w =>
   | (Exn XGenExit, w') => (close_all owned ;;; raise XGenExit) w'
   | r => r
   end.
-Definition run_chain (ss : list nat) : M unit := chain_body ss (chain_yield ss).
+(* chain.__anext__: when advancing fails with anything but StopAsyncIteration, the owned iterators
+   are closed as well before the exception propagates.  (A consumer's close does not come through
+   __anext__: it is chain.aclose, modelled in [chain_yield].) *)
+Definition run_chain (ss : list nat) : M unit := fun w =>
+  match chain_body ss (chain_yield ss) w with
+  | (Exn XGenExit, w') => (Exn XGenExit, w')
+  | (Exn e, w') => (close_all ss ;;; raise e) w'
+  | r => r
+  end.
 (* closing a chain that was never advanced *)
 Definition chain_close_unstarted (ss : list nat) : M unit := close_all ss.
